@@ -19,7 +19,7 @@
 (***************************************************************************)
 EXTENDS VmMeta, Json
 CONSTANTS Thorough, EmitReplay
-VARIABLES c, tx
+VARIABLES c, tx, img, outs
 
 BNs(n) == BN!FromNat(n)
 H(n) == Cat([i \in 1..32 |-> BE(n, 1)])                           \* 32 bytes of value n
@@ -68,9 +68,9 @@ ModelTx(k, mask, order) ==
                           proof_set |-> <<H(49), H(50), H(51)>>]
       [] k = "Blob" -> [kind |-> "Blob", id |-> H(52), witness_index |-> "0"]
 \* the transaction as the VM places it in memory: malleable fields zeroed, witnesses kept
-Placed(tx) == [TX!PrepareSign(tx) EXCEPT !.witnesses = tx.witnesses]
+Placed(t) == [TX!PrepareSign(t) EXCEPT !.witnesses = t.witnesses]
 
-Masks == IF Thorough THEN {0, 63, 42, 21, 32, 8} ELSE {0, 63, 42}
+Masks == IF Thorough THEN {0, 63, 42, 21, 32, 8} ELSE {0, 63}
 Orders == IF Thorough THEN {1, 2} ELSE {1}
 Undefined == {0, 8, 15, 16, 256, 267, 520, 526, 546, 575, 588, 773, 774, 777, 1026, 1279, 1287, 1542, 1794, 2049, 2303, 2310, 4095}
 Sels == GtfSelectors \cup Undefined
@@ -79,21 +79,25 @@ Idx == {BNs(i) : i \in 0..8} \cup {"65535", "65536", "4294967295", "4294967296",
 \* state: stage 0 = start; stage 1 = a model transaction has been chosen (tx = the transaction as placed in memory);
 \* stage 2 = a case (selector, index) on it
 TxOff == 10272
-MCInit == c = [stage |-> 0] /\ tx = <<>>
+MCInit == c = [stage |-> 0] /\ tx = <<>> /\ img = "" /\ outs = {}
 PickTx ==
     /\ c.stage = 0
     /\ \E k \in ModelKinds, m \in Masks, o \in Orders :
           /\ c' = [stage |-> 1, kind |-> k, mask |-> m, order |-> o]
           /\ tx' = Placed(ModelTx(k, m, o))
+          /\ img' = TX!Enc(TX!TransactionT, Placed(ModelTx(k, m, o)))
+    /\ UNCHANGED outs
 PickCase ==
     /\ c.stage = 1
-    /\ \E s \in Sels, b \in Idx : c' = [stage |-> 2, kind |-> c.kind, mask |-> c.mask, order |-> c.order, sel |-> s, b |-> b]
-    /\ UNCHANGED tx
+    /\ \E s \in Sels, b \in Idx :
+          /\ c' = [stage |-> 2, kind |-> c.kind, mask |-> c.mask, order |-> c.order, sel |-> s, b |-> b]
+          /\ outs' = GtfOutcomes(tx, TxOff, s, b)
+    /\ UNCHANGED <<tx, img>>
 MCNext == PickTx \/ PickCase
-MCSpec == MCInit /\ [][MCNext]_<<c, tx>>
+MCSpec == MCInit /\ [][MCNext]_<<c, tx, img, outs>>
 
 Tx == tx
-Outs == GtfOutcomes(Tx, TxOff, c.sel, c.b)
+Outs == outs
 Def == c.sel \in GtfSelectors
 RowC == GtfTable[c.sel]
 Applies == Def /\ Tx.kind \in RowC.k \cup RowC.g
@@ -133,7 +137,7 @@ PolicyLaw == (Applies /\ RowC.sc = "policy") =>
     LET i == PolicyIdx(RowC.p[1]) IN
     Outs = IF TX!BitSet(c.mask, i - 1) THEN {Ok(PolicyVals(c.order)[i])} ELSE {Fail("PolicyIsNotSet")}
 \* every pointer answer lies in the transaction image, word aligned, and the encoding holds the field's bytes there
-Image == TX!Enc(TX!TransactionT, Tx)
+Image == img
 PointerInImage == \A o \in Good(Outs) : o.ptr =>
     LET a == BN!ToNat(o.val) - TxOff  n == BLen(o.bytes) IN
     /\ BN!ToNat(o.val) >= TxOff
@@ -158,6 +162,21 @@ TableWellFormed ==
           /\ r.sc \in ListScopes \cup {"tx", "policy"}
     /\ \A s, t \in GtfSelectors : (GtfTable[s].n = GtfTable[t].n) => s = t
     /\ Cardinality(GtfSelectors) = 82
+
+\* the laws hold in every state that is a case
+Case == c.stage = 2
+I_Total == Case => Total
+I_OutcomeShape == Case => OutcomeShape
+I_UnknownSelector == Case => UnknownSelector
+I_WrongKind == Case => WrongKind
+I_OutOfRange == Case => OutOfRange
+I_InRangeAnswered == Case => InRangeAnswered
+I_IndexIgnored == Case => IndexIgnored
+I_PolicyLaw == Case => PolicyLaw
+I_PointerInImage == Case => PointerInImage
+I_ValueFits == Case => ValueFits
+I_ZeroedLaw == Case => ZeroedLaw
+I_AliasesAgree == Case => AliasesAgree
 
 \* ---- GM on a model machine: external script, predicate, call depth 1 and 2 ----
 F1 == 12000  F2 == 13000
